@@ -141,6 +141,10 @@ pub struct Cut {
     pub segment_renamed: bool,
 }
 
+/// deadline of one request of the workload phase (the child copies the directory after every effect;
+/// a silent 15 s deadline proved too short on a machine under load and is not a hang)
+const WORKLOAD_DEADLINE: Duration = Duration::from_secs(90);
+
 #[derive(Default)]
 pub struct CrashStats {
     pub cuts: usize,
@@ -385,7 +389,7 @@ pub fn run_crash(input: &Sx) -> Vec<Outcome> {
         lst(cmd)
     };
     let mut p = DbProc::spawn(db.path());
-    let mut alive = matches!(p.request(&open_cmd(life), Duration::from_secs(15)), Reply::Ok(ref s) if s.tag() == "ok");
+    let mut alive = matches!(p.request(&open_cmd(life), WORKLOAD_DEADLINE), Reply::Ok(ref s) if s.tag() == "ok");
     if !alive {
         violation("workload:open-failed".into(), "could not open a fresh database".into(), &mut outs);
     }
@@ -401,11 +405,11 @@ pub fn run_crash(input: &Sx) -> Vec<Outcome> {
         let before = acked.clone();
         let ok = match kind.as_str() {
             "ingest" => {
-                let r = p.request(op, Duration::from_secs(15));
+                let r = p.request(op, WORKLOAD_DEADLINE);
                 acked.apply(op.items()[1].items());
                 matches!(r, Reply::Ok(ref s) if s.tag() == "ok")
             }
-            "flush" => matches!(p.request(&lst(vec![a("flush")]), Duration::from_secs(15)), Reply::Ok(ref s) if s.tag() == "ok"),
+            "flush" => matches!(p.request(&lst(vec![a("flush")]), WORKLOAD_DEADLINE), Reply::Ok(ref s) if s.tag() == "ok"),
             "restart" => {
                 let _ = p.request(&lst(vec![a("quiesce")]), Duration::from_secs(25));
                 // effects of the lifetime that ends here were collected after each op
@@ -413,7 +417,7 @@ pub fn run_crash(input: &Sx) -> Vec<Outcome> {
                 life += 1;
                 n_seen = 0;
                 p = DbProc::spawn(db.path());
-                matches!(p.request(&open_cmd(life), Duration::from_secs(15)), Reply::Ok(ref s) if s.tag() == "ok")
+                matches!(p.request(&open_cmd(life), WORKLOAD_DEADLINE), Reply::Ok(ref s) if s.tag() == "ok")
             }
             _ => true,
         };
